@@ -669,3 +669,188 @@ Lemma pctdiff_sqlite_integer_witness :
   /\ doc_pctdiff 3 9 (1 # 10) = F
   /\ sem duckdb_profile (std_fenv []) env (gen_pctdiff (ECol true "x") (ECol false "x") (VNum (1 # 10))) = F.
 Proof. vm_compute. auto. Qed.
+
+(* ------------------------------------------------------------------ arrays as sets *)
+Lemma mem_str_In s l : mem_str s l = true <-> In s l.
+Proof.
+  unfold mem_str. rewrite existsb_exists. split.
+  - intros (x & Hx & E). apply String.eqb_eq in E. now subst.
+  - intros H. exists s. split; [exact H|apply String.eqb_refl].
+Qed.
+Lemma dedup_str_In x l : In x (dedup_str l) <-> In x l.
+Proof.
+  induction l as [|s t IH]; cbn; [tauto|]. destruct (mem_str s t) eqn:E.
+  - rewrite IH. split; [tauto|]. intros [<-|H]; [now apply mem_str_In|exact H].
+  - cbn. rewrite IH. tauto.
+Qed.
+Lemma dedup_str_NoDup l : NoDup (dedup_str l).
+Proof.
+  induction l as [|s t IH]; cbn; [constructor|]. destruct (mem_str s t) eqn:E; [exact IH|].
+  constructor; [|exact IH]. rewrite dedup_str_In. intros H. apply mem_str_In in H. congruence.
+Qed.
+Lemma dedup_str_id l : NoDup l -> dedup_str l = l.
+Proof.
+  induction 1 as [|s t Hn Hd IH]; cbn; [reflexivity|].
+  destruct (mem_str s t) eqn:E; [apply mem_str_In in E; contradiction|]. now rewrite IH.
+Qed.
+Lemma arr_intersect_In x a b : In x (arr_intersect a b) <-> In x a /\ In x b.
+Proof. unfold arr_intersect. rewrite dedup_str_In, filter_In, mem_str_In. tauto. Qed.
+Lemma arr_intersect_NoDup a b : NoDup (arr_intersect a b).
+Proof. apply dedup_str_NoDup. Qed.
+
+Lemma filter_len_le {A} (p : A -> bool) l : length (filter p l) <= length l.
+Proof. induction l as [|x t IH]; cbn; [lia|]. destruct (p x); cbn; lia. Qed.
+Lemma filter_length_all {A} (p : A -> bool) l : length (filter p l) = length l <-> forallb p l = true.
+Proof.
+  induction l as [|x t IH]; cbn; [tauto|]. pose proof (filter_len_le p t) as Hle.
+  destruct (p x); cbn; [rewrite <- IH; lia|]. split; [lia|discriminate].
+Qed.
+
+(* the documented subset predicate on duplicate-free arrays *)
+Definition subset_doc (empty_is_subset : bool) (a b : list string) : bool :=
+  let small := if Nat.leb (length a) (length b) then a else b in
+  let large := if Nat.leb (length a) (length b) then b else a in
+  (empty_is_subset || negb (Nat.eqb (length small) 0)) && forallb (fun x => mem_str x large) small.
+
+Lemma intersect_full_iff a b : NoDup a -> NoDup b ->
+  (length (arr_intersect a b) = Nat.min (length a) (length b) <->
+   forallb (fun x => mem_str x (if Nat.leb (length a) (length b) then b else a))
+           (if Nat.leb (length a) (length b) then a else b) = true).
+Proof.
+  intros Ha Hb. unfold arr_intersect. rewrite dedup_str_id by (now apply NoDup_filter).
+  destruct (Nat.leb (length a) (length b)) eqn:E.
+  - apply Nat.leb_le in E. rewrite Nat.min_l by exact E. apply filter_length_all.
+  - apply Nat.leb_gt in E. rewrite Nat.min_r by lia.
+    set (F := filter (fun s => mem_str s b) a).
+    assert (HF : NoDup F) by (now apply NoDup_filter).
+    assert (HFb : incl F b) by (intros x Hx; apply filter_In in Hx as [_ Hx]; now apply mem_str_In).
+    assert (HFa : incl F a) by (intros x Hx; now apply filter_In in Hx as [Hx _]).
+    rewrite forallb_forall. split.
+    + intros Hl x Hx. apply mem_str_In. apply HFa.
+      assert (Hbl : length b <= length F) by lia.
+      exact (NoDup_length_incl HF Hbl HFb x Hx).
+    + intros Hall. apply Nat.le_antisymm.
+      * apply NoDup_incl_length; assumption.
+      * apply NoDup_incl_length; [exact Hb|]. intros x Hx. apply filter_In. split.
+        -- apply mem_str_In. now apply Hall.
+        -- now apply mem_str_In.
+Qed.
+
+Section StdArr.
+  Variable P : profile.
+  Variable env : bool -> string -> val.
+  Notation ev := (eval P (std_fenv []) env).
+  Notation sm := (sem P (std_fenv []) env).
+  Local Open Scope string_scope.
+
+  Lemma sem_arr_intersect_std cl cr n a b :
+    ev cl = VArr a -> ev cr = VArr b ->
+    sm (gen_arr_intersect "array_length" "list_intersect" cl cr (VInt n))
+    = doc_ge (inject_Z (Z.of_nat (length (arr_intersect a b)))) (inject_Z n).
+  Proof.
+    intros Ha Hb. unfold gen_arr_intersect. rewrite sem_cmp. cbn [eval map]. rewrite Ha, Hb.
+    change (std_fenv [] "list_intersect" [VArr a; VArr b]) with (VArr (arr_intersect a b)).
+    change (std_fenv [] "array_length" [VArr (arr_intersect a b)]) with (VInt (Z.of_nat (length (arr_intersect a b)))).
+    erewrite cmp3_thresh by reflexivity. reflexivity.
+  Qed.
+
+  Lemma Zlen_eqb (x y : nat) : Qeq_bool (inject_Z (Z.of_nat x)) (inject_Z (Z.of_nat y)) = Nat.eqb x y.
+  Proof.
+    destruct (Nat.eqb_spec x y) as [->|N].
+    - apply Qeq_bool_iff. reflexivity.
+    - destruct (Qeq_bool _ _) eqn:E; [|reflexivity]. apply Qeq_bool_iff in E.
+      assert (E2 : Z.of_nat x = Z.of_nat y) by (now apply inject_Z_injective).
+      apply Nat2Z.inj in E2. contradiction.
+  Qed.
+  Lemma Zlen_leb (x y : nat) : Qle_bool (inject_Z (Z.of_nat x)) (inject_Z (Z.of_nat y)) = Nat.leb x y.
+  Proof.
+    destruct (Nat.leb_spec x y) as [L|L].
+    - apply Qle_bool_iff. rewrite <- Zle_Qle. lia.
+    - destruct (Qle_bool _ _) eqn:E; [|reflexivity]. apply Qle_bool_iff in E. rewrite <- Zle_Qle in E. lia.
+  Qed.
+
+  Lemma least_len (x y : nat) :
+    std_fenv [] "least" [VInt (Z.of_nat x); VInt (Z.of_nat y)] = VInt (Z.of_nat (Nat.min x y)).
+  Proof.
+    unfold std_fenv. cbn [lookup]. unfold builtin. cbn [existsb is_null orb].
+    unfold val_le. cbn [to_xnum xle]. rewrite Zlen_leb.
+    destruct (Nat.leb_spec x y); [rewrite Nat.min_l by lia|rewrite Nat.min_r by lia]; reflexivity.
+  Qed.
+
+  Lemma sem_arr_subset_std emp cl cr a b :
+    ev cl = VArr a -> ev cr = VArr b -> NoDup a -> NoDup b ->
+    sm (gen_arr_subset "array_length" "array_intersect" emp cl cr) = of_bool (subset_doc emp a b).
+  Proof.
+    intros Ha Hb Na Nb.
+    assert (Hmain : sm (ECmp CEq (EFn "array_length" [EFn "array_intersect" [cl; cr]])
+                               (EFn "least" [EFn "array_length" [cl]; EFn "array_length" [cr]]))
+                    = of_bool (Nat.eqb (length (arr_intersect a b)) (Nat.min (length a) (length b)))).
+    { rewrite sem_cmp. cbn [eval map]. rewrite Ha, Hb.
+      change (std_fenv [] "array_intersect" [VArr a; VArr b]) with (VArr (arr_intersect a b)).
+      change (std_fenv [] "array_length" [VArr ?l]) with (VInt (Z.of_nat (length l))).
+      rewrite least_len. unfold cmp3, val_eq. cbn [is_null orb to_xnum xeq opt_tv]. now rewrite Zlen_eqb. }
+    assert (Hne : sm (ECmp CNe (EFn "least" [EFn "array_length" [cl]; EFn "array_length" [cr]]) (ELit (VInt 0)))
+                  = of_bool (negb (Nat.eqb (Nat.min (length a) (length b)) 0))).
+    { rewrite sem_cmp. cbn [eval map]. rewrite Ha, Hb.
+      change (std_fenv [] "array_length" [VArr ?l]) with (VInt (Z.of_nat (length l))).
+      rewrite least_len. unfold cmp3, val_eq. cbn [is_null orb to_xnum xeq opt_tv].
+      change (inject_Z 0) with (inject_Z (Z.of_nat 0)). rewrite Zlen_eqb.
+      destruct (Nat.eqb _ 0); reflexivity. }
+    assert (Hfull : Nat.eqb (length (arr_intersect a b)) (Nat.min (length a) (length b))
+                    = forallb (fun x => mem_str x (if Nat.leb (length a) (length b) then b else a))
+                              (if Nat.leb (length a) (length b) then a else b)).
+    { pose proof (intersect_full_iff a b Na Nb) as H.
+      destruct (Nat.eqb_spec (length (arr_intersect a b)) (Nat.min (length a) (length b))) as [E|E];
+        destruct (forallb _ _) eqn:F; auto; [apply H in E; congruence|exfalso; apply E; now apply H]. }
+    assert (Hmin : Nat.min (length a) (length b) = length (if Nat.leb (length a) (length b) then a else b)).
+    { destruct (Nat.leb_spec (length a) (length b)); [apply Nat.min_l|apply Nat.min_r]; lia. }
+    unfold gen_arr_subset, subset_doc. destruct emp.
+    - rewrite Hmain, Hfull. reflexivity.
+    - rewrite sem_and, Hne, Hmain, Hfull, Hmin. cbn [orb].
+      generalize (negb (Nat.eqb (length (if Nat.leb (length a) (length b) then a else b)) 0)).
+      generalize (forallb (fun x => mem_str x (if Nat.leb (length a) (length b) then b else a))
+                          (if Nat.leb (length a) (length b) then a else b)).
+      intros [|] [|]; reflexivity.
+  Qed.
+End StdArr.
+
+(* ------------------------------------------------------------------ great-circle distance: clipping *)
+Section Km.
+  Variable P : profile.
+  Variable fenv : string -> list val -> val.
+  Variable env : bool -> string -> val.
+  Notation ev := (eval P fenv env).
+
+  (* whatever number the (rounded) haversine sum evaluates to, acos receives a value in [-1, 1] *)
+  Lemma km_clip_in_domain p q :
+    numQ (ev p) = Some q ->
+    exists v, numQ (ev (km_clipped p)) = Some v /\ (-1 <= v <= 1)%Q /\
+              ((-1 <= q <= 1)%Q -> v == q)%Q.
+  Proof.
+    intros Hq. unfold km_clipped. rewrite eval_case_pick. cbn [map fst snd pick].
+    rewrite !sem_cmp. cbn [eval]. erewrite !cmp3_thresh by (reflexivity || eauto). cbn [sat].
+    destruct (Qle_bool q (inject_Z 1)) eqn:E1; cbn [negb of_bool isT nth_error].
+    - destruct (Qle_bool (inject_Z (-1)) q) eqn:E2; cbn [negb of_bool isT nth_error pick].
+      + cbn [eval]. exists q. split; [exact Hq|]. apply Qle_bool_iff in E1. apply Qle_bool_iff in E2.
+        split; [split; assumption|]. intros _. reflexivity.
+      + cbn [snd eval]. exists (inject_Z (-1)). split; [reflexivity|]. split; [split; discriminate|].
+        intros [H _]. apply Qle_bool_iff in H. change (-1)%Q with (inject_Z (-1)) in H. congruence.
+    - cbn [snd eval]. exists (inject_Z 1). split; [reflexivity|]. split; [split; discriminate|].
+      intros [_ H]. apply Qle_bool_iff in H. change 1%Q with (inject_Z 1) in H. congruence.
+  Qed.
+
+  (* the level is the threshold test on acos(clipped) * 6371 *)
+  Lemma sem_km fty latl latr lngl lngr t d tq :
+    fenv "acos" [ev (km_clipped (km_partial latl latr lngl lngr))] = VNum d ->
+    (forall x, fenv ("cast:" ++ fty)%string [VNum x] = VNum x) -> numQ t = Some tq ->
+    sem P fenv env (gen_km fty false latl latr lngl lngr t) = doc_le (d * 6371) tq.
+  Proof.
+    intros Hd Hc Ht. unfold gen_km, km_distance. rewrite sem_cmp.
+    change (ev (ECast ?a fty)) with (fenv ("cast:" ++ fty)%string [ev a]).
+    change (ev (EArith Mul ?a ?b)) with (arith_val P Mul (ev a) (ev b)).
+    change (ev (EFn "acos"%string [?a])) with (fenv "acos"%string [ev a]).
+    rewrite Hd. cbn [eval arith_val numQ]. rewrite Hc.
+    erewrite cmp3_thresh by (reflexivity || eauto). unfold doc_le. cbn [sat].
+    now rewrite Qred_correct.
+  Qed.
+End Km.
